@@ -328,6 +328,21 @@ func (x *Exec) havocAll(st *State) {
 }
 
 func (x *Exec) unknownFuncCall(fr *Frame, st *State, c *ssa.CallCommon, fv Val, args []Val, rt types.Type, pos token.Pos) (Val, error) {
+	if ld, ok := c.Value.(*ssa.UnOp); ok && x.topFC != nil {
+		if g, ok := ld.X.(*ssa.Global); ok {
+			// a package-level function variable (e.g. a registration hook replaced in tests)
+			key := "var " + g.Name()
+			for _, pat := range x.topFC.Abstract {
+				fs := strings.Fields(pat)
+				if len(fs) >= 3 && fs[0] == "call" && fs[2] == "pure" && strings.Contains(key, fs[1]) {
+					x.u.Trust(fmt.Sprintf("abstracted call (assumed to leave the modelled state unchanged): %s", key))
+					r := x.u.FreshVal("abs", rt)
+					x.u.assumeValExisting(st, r)
+					return r, nil
+				}
+			}
+		}
+	}
 	x.u.Trust("call through an unknown function value: arbitrary result, whole heap havocked")
 	x.havocAllAtCall(fr, st, args)
 	return x.u.FreshVal("dyn", rt), nil
